@@ -5,10 +5,13 @@ package main
 //   effect no <E> before <callee>
 //   effect no lock-held at <callee>
 //   effect no <E> except <callee>,...   (function-wide)
+//   effect no <E> while lock-held
+//   effect no lock-held at return
 // An effect (awaits-task, may-block) is declared on contracts / libspec entries
 // and inherited through inlined callees. Channel operations have may-block.
 
 import (
+	"sort"
 	"fmt"
 	"strconv"
 	"strings"
@@ -228,13 +231,26 @@ func (s *Session) checkEffects() {
 					}
 				}
 			}
+		case "while":
+			// no E while lock-held: nothing with effect E (in this function or, through contracts / bodies,
+			// in what it calls) happens while a mutex locked by this function itself is held. Taking a
+			// second lock while one is held counts (Lock has the effect may-block): it is how a function
+			// dead-locks on its own mutex or nests locks in an order nobody checks.
+			if len(f) < 4 || f[3] != "lock-held" {
+				fatalf("%s: bad effect clause %q", s.name, e)
+			}
+			offenders = s.effectsWhileLocked(eff)
 		case "at":
 			// no lock-held at C: on no path is a sync.(RW)Mutex locked by this function's own
 			// instructions still held when C is called (a deferred Unlock releases at exit only)
 			if eff != "lock-held" {
 				fatalf("%s: bad effect clause %q", s.name, e)
 			}
-			offenders = s.locksHeldAt(f[3], e)
+			if f[3] == "return" {
+				offenders = s.locksHeldAtReturn()
+			} else {
+				offenders = s.locksHeldAt(f[3], e)
+			}
 		default:
 			fatalf("%s: bad effect clause %q", s.name, e)
 		}
@@ -431,5 +447,120 @@ func (s *Session) locksNotHeldAt(target, clause string) []string {
 	if !found {
 		fatalf("%s: effect clause %q: no call of %s", s.name, clause, target)
 	}
+	return offenders
+}
+
+// heldLocksFlow: forward MAY-analysis of the mutexes this function has locked itself; visit is called
+// for every instruction with the set held just before it.
+func (s *Session) heldLocksFlow(visit func(in ssa.Instruction, held map[string]string)) {
+	in := map[*ssa.BasicBlock]map[string]string{}
+	transfer := func(b *ssa.BasicBlock, held map[string]string, report bool) map[string]string {
+		out := map[string]string{}
+		for k, v := range held {
+			out[k] = v
+		}
+		for _, i := range b.Instrs {
+			if report {
+				visit(i, out)
+			}
+			c, ok := i.(*ssa.Call)
+			if !ok {
+				continue
+			}
+			if k, acq, rel := lockOp(&c.Call); acq {
+				out[k] = s.P.pos(i.Pos())
+			} else if rel {
+				delete(out, k)
+			}
+		}
+		return out
+	}
+	for changed := true; changed; {
+		changed = false
+		for _, b := range s.fn.Blocks {
+			out := transfer(b, in[b], false)
+			for _, succ := range b.Succs {
+				if in[succ] == nil {
+					in[succ] = map[string]string{}
+				}
+				for k, v := range out {
+					if _, ok := in[succ][k]; !ok {
+						in[succ][k] = v
+						changed = true
+					}
+				}
+			}
+		}
+	}
+	for _, b := range s.fn.Blocks {
+		transfer(b, in[b], true)
+	}
+}
+
+func (s *Session) effectsWhileLocked(eff string) []string {
+	var offenders []string
+	seen := map[string]bool{}
+	s.heldLocksFlow(func(i ssa.Instruction, held map[string]string) {
+		if len(held) == 0 {
+			return
+		}
+		if _, isDefer := i.(*ssa.Defer); isDefer {
+			return // runs at exit
+		}
+		if c, ok := i.(*ssa.Call); ok {
+			if _, _, rel := lockOp(&c.Call); rel {
+				return // releasing is fine
+			}
+		}
+		if effs := s.effectsOfInstr(i, 0); effs[eff] {
+			name := "channel operation"
+			if c, ok := i.(ssa.CallInstruction); ok {
+				name = s.calleeName(c.Common())
+			}
+			var ks []string
+			for k, where := range held {
+				ks = append(ks, k+" (locked at "+where+")")
+			}
+			sort.Strings(ks)
+			m := fmt.Sprintf("%s at %s while holding %s", name, s.P.pos(i.Pos()), strings.Join(ks, ", "))
+			if !seen[m] {
+				seen[m] = true
+				offenders = append(offenders, m)
+			}
+		}
+	})
+	return offenders
+}
+
+// locksHeldAtReturn: a mutex locked by this function is still held when it returns (no matching
+// Unlock, not even a deferred one, on some path).
+func (s *Session) locksHeldAtReturn() []string {
+	deferred := map[string]bool{}
+	for _, b := range s.fn.Blocks {
+		for _, i := range b.Instrs {
+			if d, ok := i.(*ssa.Defer); ok {
+				if k, _, rel := lockOp(&d.Call); rel {
+					deferred[k] = true
+				}
+			}
+		}
+	}
+	var offenders []string
+	seen := map[string]bool{}
+	s.heldLocksFlow(func(i ssa.Instruction, held map[string]string) {
+		if _, ok := i.(*ssa.Return); !ok {
+			return
+		}
+		for k, where := range held {
+			if deferred[k] {
+				continue
+			}
+			m := fmt.Sprintf("mutex %s locked at %s is still held at the return at %s", k, where, s.P.pos(i.Pos()))
+			if !seen[m] {
+				seen[m] = true
+				offenders = append(offenders, m)
+			}
+		}
+	})
 	return offenders
 }
